@@ -265,66 +265,19 @@ Qed.
 
 Notation stmt_post := (stmt_post pv sv bound u fl W).
 Notation P_exec := (P_exec pv sv bound u fl W).
-Notation P_execs := (P_execs pv sv bound u fl W).
+Notation P_blk := (P_blk pv sv bound u fl W).
 Notation P_bv := (P_bv pv sv bound u fl W).
 Notation bv_post := (bv_post pv sv bound u fl W).
 
-Lemma P_stmt_zero : P_exec O /\ P_execs O.
+Lemma P_exec_zero : P_exec O.
 Proof.
-  split.
-  - intros g k s ctx c code c' e st r st' sc sc' l E stL F Hev _ _ _ _ _ Hint. cbn in Hev. inversion Hev; subst. destruct Hint.
-  - intros g k ss ctx c cs c' e st r st' sc sc' l E stL F Hev _ _ _ _ _ Hint. cbn in Hev. inversion Hev; subst. destruct Hint.
+  intros g k s ctx c code c' e st r st' sc sc' l E stL F Hev _ _ _ _ _ Hint. cbn in Hev. inversion Hev; subst. destruct Hint.
 Qed.
 
-Lemma mapM_statement_bound g ss ctx c cs c' :
-  mapM (fun s => statement g s ctx) ss c = Ok (cs, c') -> True.
-Proof. auto. Qed.
-
-Lemma P_execs_succ n : P_exec n -> P_execs n -> P_execs (S n).
+Lemma P_blk_zero : P_blk O.
 Proof.
-  intros IHs IHss g k ss ctx c cs c' e st r st' sc sc' l E stL F Hev Hm Hfrag Hu Hctx Hrel Hint.
-  destruct ss as [|s ss].
-  - destruct (mapM_nil_ok _ _ _ _ Hm) as [-> ->]. destruct k as [|k]; [discriminate|]. cbn in Hfrag. inversion Hfrag; subst sc'.
-    cbn in Hev. inversion Hev; subst r st'.
-    eexists _, _. split; [apply cshape_nil|]. cbn [stmt_post]. exists E, stL, F.
-    split; [|split; [apply sext_refl | apply incl_refl]].
-    split; [apply XS_nil|]. split; [apply wframe_refl|]. split; [exact Hrel | split; [apply F_new_refl | apply keep_refl]].
-  - destruct k as [|k]; [discriminate|]. rewrite frag_stmts_cons in Hfrag.
-    destruct (frag_stmt pv sv bound fl k sc s) as [sc1|] eqn:Hfs; [|discriminate Hfrag].
-    apply mapM_cons_ok in Hm as (y & c1 & ys & Hy & Hys & ->). cbn [concat] in *.
-    apply ucovers_app in Hu as [Huy Huys].
-    destruct (L_stmt_all pv sv bound u fl g k s ctx c y c1 sc sc1 l Hy Hfs) as (_ & _ & (_ & Hc1 & _)).
-    assert (Hrest : forall l0, exists b2 l2, cshape u l0 (concat ys) b2 l2 c1 c')
-      by (intros l0; eapply (L_stmts_all pv sv bound u fl); eassumption).
-    destruct (Hrest l) as (_ & _ & (_ & Hc1' & _)).
-    assert (Hctxs : ctx_ok l F E c c1) by (eapply ctx_sub; [exact Hctx | lia | lia]).
-    cbn [SyltSem.exec_block] in Hev. unfold SyltSem.bind at 1 in Hev.
-    destruct (SyltSem.exec n e s st) as [[e1|o|cc] st1] eqn:He1.
-    2: { inversion Hev; subst.
-         destruct (IHs g k s ctx c y c1 e st _ st' sc sc1 l E stL F He1 Hy Hfs Huy Hctxs Hrel Hint) as (b1 & l1 & Hs1 & Hp1).
-         destruct (Hrest l1) as (b2 & l2 & Hs2).
-         eexists _, _. split; [eapply cshape_app; eassumption|].
-         cbn [stmt_post] in *. eapply exit_app; [exact Hp1 | lia]. }
-    2: { inversion Hev; subst.
-         destruct (IHs g k s ctx c y c1 e st _ st' sc sc1 l E stL F He1 Hy Hfs Huy Hctxs Hrel Hint) as (b1 & l1 & Hs1 & Hp1).
-         destruct (Hrest l1) as (b2 & l2 & Hs2).
-         eexists _, _. split; [eapply cshape_app; eassumption|].
-         cbn [stmt_post] in *. eapply exit_app; [exact Hp1 | lia]. }
-    destruct (IHs g k s ctx c y c1 e st _ st1 sc sc1 l E stL F He1 Hy Hfs Huy Hctxs Hrel I)
-      as (b1 & l1 & Hs1 & E1 & stL1 & F1 & Hok1 & Hse1 & Hinc1).
-    pose proof Hok1 as (Hx1 & _ & Hrel1 & _).
-    assert (Hctx1 : ctx_ok l1 F1 E1 c1 c') by (eapply ctx_afterS; eassumption).
-    destruct (IHss g k ss ctx c1 ys c' e1 st1 r st' sc1 sc' l1 E1 stL1 F1 Hev Hys Hfrag Huys Hctx1 Hrel1 Hint)
-      as (b2 & l2 & Hs2 & Hpost).
-    eexists _, _. split; [eapply cshape_app; eassumption|].
-    destruct r as [e2|o|cc].
-    + destruct Hpost as (E2 & stL2 & F2 & Hok2 & Hse2 & Hinc2).
-      exists E2, stL2, F2. split; [eapply okstepS_trans; eassumption|].
-      split; [eapply sext_trans; eassumption | eapply incl_tran; eassumption].
-    + cbn [stmt_post] in *. eapply (exit_pre pv sv bound u fl W ctx sc sc1 e e1 st st1); eassumption.
-    + cbn [stmt_post] in *. eapply (exit_pre pv sv bound u fl W ctx sc sc1 e e1 st st1); eassumption.
+  intros g k ss ctx c cs c' e st r st' sc sc' flr l E stL F Hev _ _ _ _ _ Hint. cbn in Hev. inversion Hev; subst. destruct Hint.
 Qed.
-
 
 Lemma new_cell_eq x st : SyltSem.new_cell x st = (SyltSem.RVal (length (SyltSem.cells st)), s_alloc st x).
 Proof. reflexivity. Qed.
@@ -380,7 +333,7 @@ Proof.
   destruct (SyltSem.binop_val bop xo xn st1) as [[x|o|a] s]; reflexivity.
 Qed.
 
-Lemma P_exec_succ n : P_eval n -> P_execs n -> P_exec (S n).
+Lemma P_exec_succ n : P_eval n -> P_blk n -> P_exec (S n).
 Proof.
   intros IHe IHss g k s ctx c code c' e st r st' sc sc' l E stL F Hev Hlow Hfrag Hu Hctx Hrel Hint.
   destruct g as [|g]; [discriminate|]. destruct k as [|k]; [discriminate|].
@@ -583,7 +536,7 @@ Proof.
     rewrite frag_stmt_loop in Hfrag.
     destruct (noexit_expr k condition && frag_expr pv sv bound fl k sc condition && is_some (frag_stmts pv sv bound fl k sc body))%bool eqn:Hc; [|discriminate Hfrag].
     inversion Hfrag; subst sc'. clear Hfrag.
-    frag_split Hc. destruct (frag_stmts pv sv bound fl k sc body) as [scb|] eqn:Hfb; [|discriminate Hfr].
+    frag_split Hc. destruct (frag_stmts pv sv bound fl k sc body) as [[scb flb]|] eqn:Hfb; [|discriminate Hfr].
     cbn [statement] in Hlow. mon Hlow. fresh_all.
     destruct a as [code_c vc]. cbn [fst snd] in *.
     apply lower_list_ok in Hm1 as (cs & Hmb & ->).
@@ -709,26 +662,26 @@ Proof.
         assert (Hintb : interesting rb).
         { destruct rb as [e2|o|[| |v]]; cbn [interesting]; auto.
           inversion Hgo; subst. exact Hi0. }
-        destruct (IHss g k body c0 (c0 + 1) cs c' e s1 rb s2 sc scb l1 E1 stc F1 Heb Hmb Hfb Hub Hctxb Hrelc Hintb)
+        destruct (IHss g k body c0 (c0 + 1) cs c' e s1 rb s2 sc scb flb l1 E1 stc F1 Heb Hmb Hfb Hub Hctxb Hrelc Hintb)
           as (bb & l2' & Hs2 & Hpost).
         pose proof (Hsame _ _ _ _ Hs1 Hs2) as HeqBB. rewrite app_assoc in HeqBB.
         assert (Hxp : match rb with SyltSem.RVal _ => True | _ => exit_post pv sv bound u fl W c0 sc e c c' E sL0 BB rb s2 end).
-        { destruct rb as [e2|o|a]; [exact I | |]; rewrite <- HeqBB; cbn [stmt_post] in Hpost.
+        { destruct rb as [e2|o|a]; [exact I | |]; rewrite <- HeqBB; cbn [blk_post] in Hpost.
           - eapply (exit_pre_gen pv sv bound u fl W c0 sc sc e e s0 s1 F F1 c c0 (c0 + 1) c' c c' E sL0 _ E1 stc bb);
               [exact Hokp | exact Hrel0 | apply sext_refl | apply incl_refl | exact Hpost | lia | lia | lia | lia].
           - eapply (exit_pre_gen pv sv bound u fl W c0 sc sc e e s0 s1 F F1 c c0 (c0 + 1) c' c c' E sL0 _ E1 stc bb);
               [exact Hokp | exact Hrel0 | apply sext_refl | apply incl_refl | exact Hpost | lia | lia | lia | lia]. }
         destruct rb as [e2|o|[| |v]].
         + (* the body ran to its end *)
-          cbn [stmt_post] in Hpost. destruct Hpost as (E2 & sL2 & F2 & Hok2 & Hse2 & Hinc2).
-          assert (Hall : okstepS sc scb e2 s2 F c c' E sL0 ((bc ++ [SIf (aexpand l1 vc) [] [SBreak]]) ++ bb) E2 sL2 F2).
-          { eapply (okstepS_trans sc sc scb e2 s2 F F1 F2 c c0 c'); [exact Hokp | | apply incl_refl | lia | lia].
-            destruct Hok2 as (Ha & Hb & Hc2 & Hd & He). split; [exact Ha|]. split; [eapply wframe_widen; [exact Hb | lia | lia]|].
-            split; [exact Hc2 | split; [eapply F_new_widen; [exact Hd | lia | lia] | exact He]]. }
-          rewrite HeqBB in Hall.
-          eapply (Hcont s2 E2 SigNormal sL2); [left; reflexivity | apply Hall | | | exact Hgo].
-          * eapply rel_back; [exact Hall | exact Hrel0 | exact Hse2 | exact Hinc2].
-          * eapply xkeep_of_wframe. apply Hall.
+          cbn [blk_post] in Hpost. destruct Hpost as (W2 & E2 & sL2 & F2 & Hx2 & Hf2 & Hrel2 & Hw2 & _ & Hk2 & Hse2 & Hinc2 & _).
+          destruct Hokp as (Hxp0 & Hfp & _ & _ & Hkp).
+          assert (Hfall : wframe bound c c' E sL0 E2 sL2)
+            by (eapply wframe_trans; [eapply wframe_widen; [exact Hfp | lia | lia] | eapply wframe_widen; [exact Hf2 | lia | lia]]).
+          eapply (Hcont s2 E2 SigNormal sL2); [left; reflexivity | rewrite <- HeqBB; eapply ExecS_app; eassumption | | | exact Hgo].
+          * eapply (rel_leave pv sv bound u fl W flb W2 sc scb e e2 s0 s2 E E2 sL0 sL2);
+              [exact Hrel0 | exact Hrel2 | exact Hw2 | eapply frag_stmts_fnames; exact Hfb | exact Hinc2 | exact Hse2 | | apply (wr_ncell _ _ _ _ _ _ _ Hfall)].
+            intros w Hw. rewrite (Hk2 w Hw). apply Hkp. exact Hw.
+          * eapply xkeep_of_wframe. exact Hfall.
         + (* the body failed *)
           inversion Hgo; subst r0 s0'. exact (Hterm _ _ Hxp).
         + (* break *)
@@ -812,21 +765,22 @@ Proof.
         apply (wr_cells _ _ _ _ _ _ _ Hf2 t p Hbt Hr Hp).
   - (* SBlock *)
     rewrite frag_stmt_block in Hfrag. cbn [statement] in Hlow. apply lower_list_ok in Hlow as (cs & Hm & ->).
-    destruct (frag_stmts pv sv bound fl k sc statements) as [sc1|] eqn:Hs; [|discriminate Hfrag]. inversion Hfrag; subst sc'.
+    destruct (frag_stmts pv sv bound fl k sc statements) as [[sc1 fl1]|] eqn:Hs; [|discriminate Hfrag]. inversion Hfrag; subst sc'.
     cbn [SyltSem.exec] in Hev. unfold SyltSem.bind at 1 in Hev.
     destruct (SyltSem.exec_block n e statements st) as [[e1|o|cc] st1] eqn:He1.
     2: { inversion Hev; subst.
-         destruct (IHss g k statements ctx c cs c' e st _ st' sc sc1 l E stL F He1 Hm Hs Hu Hctx Hrel Hint) as (b1 & l1 & Hs1 & Hpost).
+         destruct (IHss g k statements ctx c cs c' e st _ st' sc sc1 fl1 l E stL F He1 Hm Hs Hu Hctx Hrel Hint) as (b1 & l1 & Hs1 & Hpost).
          eexists _, _. split; [exact Hs1 | exact Hpost]. }
     2: { inversion Hev; subst.
-         destruct (IHss g k statements ctx c cs c' e st _ st' sc sc1 l E stL F He1 Hm Hs Hu Hctx Hrel Hint) as (b1 & l1 & Hs1 & Hpost).
+         destruct (IHss g k statements ctx c cs c' e st _ st' sc sc1 fl1 l E stL F He1 Hm Hs Hu Hctx Hrel Hint) as (b1 & l1 & Hs1 & Hpost).
          eexists _, _. split; [exact Hs1 | exact Hpost]. }
     cbn in Hev. inversion Hev; subst r st'. clear Hev.
-    destruct (IHss g k statements ctx c cs c' e st _ st1 sc sc1 l E stL F He1 Hm Hs Hu Hctx Hrel I)
-      as (b1 & l1 & Hs1 & E1 & stL1 & F1 & (Hx1 & Hf1 & Hrel1 & Hn1 & Hk1) & Hse1 & Hinc1).
+    destruct (IHss g k statements ctx c cs c' e st _ st1 sc sc1 fl1 l E stL F He1 Hm Hs Hu Hctx Hrel I)
+      as (b1 & l1 & Hs1 & W1 & E1 & stL1 & F1 & Hx1 & Hf1 & Hrel1 & Hw1 & Hn1 & Hk1 & Hse1 & Hinc1 & _).
     eexists _, _. split; [exact Hs1|].
     cbn [stmt_post]. exists E1, stL1, F1. split; [|split; [apply sext_refl | apply incl_refl]].
-    split; [exact Hx1|]. split; [exact Hf1|]. split; [eapply rel_shrink; eassumption|]. split; assumption.
+    split; [exact Hx1|]. split; [exact Hf1|]. split; [|split; assumption].
+    eapply (rel_shrink_w pv sv bound u fl W fl1 W1 sc sc1 e e1); [exact Hrel | exact Hrel1 | exact Hw1 | eapply frag_stmts_fnames; exact Hs | exact Hinc1 | exact Hse1].
   - (* SStatementExpression *)
     rewrite frag_stmt_sexpr in Hfrag. cbn [statement] in Hlow. mon Hlow.
     destruct (frag_expr pv sv bound fl k sc value) eqn:Hfe; [|discriminate Hfrag]. inversion Hfrag; subst sc'.
@@ -863,9 +817,33 @@ Proof.
     + intros v Hv. rewrite (Hk2 v (Hi v Hv)). apply Hk1. exact Hv.
 Qed.
 
-Lemma P_bv_succ n : P_eval n -> P_execs n -> P_bv (S n).
+End Sim.
+
+(* ------------------------------------------------------------------ the body of an if-branch *)
+Section Bv.
+Variable pv : N.
+Variable sv : N.
+Variable bound : N.
+Variable u : counts.
+Variable fl : list (N * nat).
+Variable W : world.
+
+Notation rel := (rel pv sv bound u fl W).
+Notation ctx_ok := (ctx_ok bound).
+Notation P_blk := (P_blk pv sv bound u fl W).
+Notation P_bv := (P_bv pv sv bound u fl W).
+Notation bv_post := (bv_post pv sv bound u fl W).
+
+Lemma ctx_after_blk l F E stL c c0 c1 l1 E1 stL1 F1 code bl :
+  ctx_ok l F E c c1 -> cshape u l code bl l1 c c0 -> wframe bound c c0 E stL E1 stL1 -> F_new F F1 c c0 ->
+  ctx_ok l1 F1 E1 c0 c1.
 Proof.
-  intros IHe IHss g k body ctx c code c' e st r st' sc sc' l E stL F out p lo hi
+  intros Hc (_ & Hle & Hfr & _) Hf Hn. eapply ctx_step; eassumption.
+Qed.
+
+Lemma P_bv_succ n : (forall fl' W', SimExpr.P_eval pv sv bound u fl' W' n) -> P_blk n -> P_bv (S n).
+Proof.
+  intros IHe IHss g k body ctx c code c' e st r st' sc [sc' flr] l E stL F out p lo hi
          Hev Hlow Hfrag Hu Hctx Hrel Hblo Hlc Hch Hout Hoc Hp Hnp Hcell Hlout Hcout Hint.
   cbn [SyltSem.block_value] in Hev. unfold lower_eblock in Hlow.
   assert (Hbout : bound <= out) by lia.
@@ -877,14 +855,15 @@ Proof.
     unfold SyltSem.bind at 1 in Hev'.
     destruct (SyltSem.exec_block n e body st) as [[e1|o|cc] st1] eqn:He1.
     2,3: (inversion Hev'; subst;
-          destruct (IHss g k body ctx c cs c' e st _ st' sc sc' l E stL F He1 Hm Hfrag Hu Hctx Hrel Hint) as (b1 & l1 & Hs1 & Hpost);
-          eexists _, _; (split; [exact Hs1|]); cbn [stmt_post bv_post] in *; eapply (xpost_widen pv sv bound u fl W ctx sc e c c' lo hi); [exact Hpost | lia | lia]).
+          destruct (IHss g k body ctx c cs c' e st _ st' sc sc' flr l E stL F He1 Hm Hfrag Hu Hctx Hrel Hint) as (b1 & l1 & Hs1 & Hpost);
+          eexists _, _; (split; [exact Hs1|]); cbn [blk_post bv_post] in *; eapply (xpost_widen pv sv bound u fl W ctx sc e c c' lo hi); [exact Hpost | lia | lia]).
     cbn in Hev'. inversion Hev'; subst r st'. clear Hev'.
-    destruct (IHss g k body ctx c cs c' e st _ st1 sc sc' l E stL F He1 Hm Hfrag Hu Hctx Hrel I)
-      as (b1 & l1 & Hs1 & E1 & stL1 & F1 & Hok1 & Hse1 & Hinc1).
+    destruct (IHss g k body ctx c cs c' e st _ st1 sc sc' flr l E stL F He1 Hm Hfrag Hu Hctx Hrel I)
+      as (b1 & l1 & Hs1 & W1 & E1 & stL1 & F1 & Hx1 & Hf1 & Hrel1 & Hw1 & _ & Hk1 & Hse1 & Hinc1 & _).
     eexists _, _. split; [exact Hs1|]. cbn [bv_post]. exists E1, stL1.
-    pose proof Hok1 as (Hx1 & Hf1 & _).
-    split; [exact Hx1|]. split; [eapply rel_back; eassumption|].
+    split; [exact Hx1|]. split.
+    { eapply (rel_leave pv sv bound u fl W flr W1 sc sc' e e1 st st1 E E1 stL stL1);
+        [exact Hrel | exact Hrel1 | exact Hw1 | eapply frag_stmts_fnames; exact Hfrag | exact Hinc1 | exact Hse1 | exact Hk1 | apply (wr_ncell _ _ _ _ _ _ _ Hf1)]. }
     split; [eapply xkeep_widen; [eapply xkeep_of_wframe; exact Hf1 | lia | lia]|].
     rewrite (wr_cells _ _ _ _ _ _ _ Hf1 out p Hbout Hoc Hp), Hcell. constructor. }
   destruct (rev body) as [|last init_rev] eqn:Hrev; [apply Hwhole; assumption|].
@@ -893,57 +872,72 @@ Proof.
   assert (Hbody : body = rev init_rev ++ [SStatementExpression value sp]) by (rewrite <- (rev_involutive body), Hrev; reflexivity).
   rewrite Hbody in Hfrag. clear Hbody Hrev.
   mon Hlow. apply lower_list_ok in Hm as (cs & Hmi & ->).
-  destruct (frag_stmts_app pv sv bound fl _ _ _ _ _ Hfrag) as (sc1 & k' & Hfi & Hfl).
-  destruct k' as [|k']; [discriminate|]. rewrite frag_stmts_cons in Hfl.
+  destruct (frag_stmts_app pv sv bound _ _ _ _ _ _ Hfrag) as (sc1 & fl1 & k' & Hfi & Hfl).
+  destruct k' as [|k']; [discriminate|]. rewrite (frag_stmts_plain pv sv bound fl1) in Hfl by reflexivity.
   destruct k' as [|k'']; [discriminate|]. rewrite frag_stmt_sexpr in Hfl.
-  destruct (frag_expr pv sv bound fl k'' sc1 value) eqn:Hfe; [|discriminate Hfl].
+  destruct (frag_expr pv sv bound fl1 k'' sc1 value) eqn:Hfe; [|discriminate Hfl].
   destruct a0 as [cv rv]. cbn [fst snd] in *.
   apply ucovers_app in Hu as [Hui Hu]. apply ucovers_app in Hu as [Huv Hur].
   assert (Hcrv : 1 <= count_of u rv) by (eapply Hur; [left; reflexivity | right; left; reflexivity]).
-  destruct (L_stmts_all pv sv bound u fl g k (rev init_rev) ctx c cs c0 sc sc1 l Hmi Hfi) as (_ & _ & (_ & Hcc0 & _)).
+  destruct (L_stmts_all pv sv bound u fl g k (rev init_rev) ctx c cs c0 sc (sc1, fl1) l Hmi Hfi) as (_ & _ & (_ & Hcc0 & _)).
   assert (HLv : forall l0, exists b2 l2, cshape u l0 cv b2 l2 c0 c')
-    by (intros l0; destruct (L_expr_all pv sv bound u fl g k'' value ctx c0 cv rv c' sc1 l0 Hm0 Hfe) as (b2 & l2 & Hs2 & _); eauto).
+    by (intros lx; destruct (L_expr_all pv sv bound u fl1 g k'' value ctx c0 cv rv c' sc1 lx Hm0 Hfe) as (b2 & l2 & Hs2 & _); eauto).
   destruct (HLv l) as (_ & _ & (_ & Hc0c' & _)).
   assert (Hasg : forall l0, cshape u l0 [IAssign out rv] (fst (agen_one u l0 (IAssign out rv))) l0 c' c')
-    by (intros l0; apply cshape_plain; [lia | reflexivity | reflexivity | apply used_plain]).
+    by (intros lx; apply cshape_plain; [lia | reflexivity | reflexivity | apply used_plain]).
   assert (Hctxi : ctx_ok l F E c c0) by (eapply ctx_sub; [exact Hctx | lia | lia]).
+  pose proof (frag_stmts_fnames pv sv bound _ _ _ _ _ _ Hfi) as Hfn.
   unfold SyltSem.bind at 1 in Hev.
   destruct (SyltSem.exec_block n e (rev init_rev) st) as [[e1|o|cc] st1] eqn:He1.
   2,3: (inversion Hev; subst;
-        destruct (IHss g k (rev init_rev) ctx c cs c0 e st _ st' sc sc1 l E stL F He1 Hmi Hfi Hui Hctxi Hrel Hint) as (b1 & l1 & Hs1 & Hpost);
+        destruct (IHss g k (rev init_rev) ctx c cs c0 e st _ st' sc sc1 fl1 l E stL F He1 Hmi Hfi Hui Hctxi Hrel Hint) as (b1 & l1 & Hs1 & Hpost);
         destruct (HLv l1) as (b2 & l2 & Hs2);
         eexists _, _; (split; [eapply cshape_app; [exact Hs1|]; eapply cshape_app; [exact Hs2 | apply Hasg]|]);
-        cbn [stmt_post bv_post] in *; eapply exit_app; [eapply (xpost_widen pv sv bound u fl W ctx sc e c c0 lo hi); [exact Hpost | lia | lia] | apply N.le_refl]).
-  destruct (IHss g k (rev init_rev) ctx c cs c0 e st _ st1 sc sc1 l E stL F He1 Hmi Hfi Hui Hctxi Hrel I)
-    as (b1 & l1 & Hs1 & E1 & stL1 & F1 & Hok1 & Hse1 & Hinc1).
-  pose proof Hok1 as (Hx1 & Hf1 & Hrel1 & _).
-  assert (Hctx1 : ctx_ok l1 F1 E1 c0 c') by (eapply ctx_afterS; eassumption).
+        cbn [blk_post bv_post] in *; eapply exit_app; [eapply (xpost_widen pv sv bound u fl W ctx sc e c c0 lo hi); [exact Hpost | lia | lia] | apply N.le_refl]).
+  destruct (IHss g k (rev init_rev) ctx c cs c0 e st _ st1 sc sc1 fl1 l E stL F He1 Hmi Hfi Hui Hctxi Hrel I)
+    as (b1 & l1 & Hs1 & W1 & E1 & stL1 & F1 & Hx1 & Hf1 & Hrel1 & Hw1 & HFn1 & Hk1 & Hse1 & Hinc1 & Hwn1).
+  assert (Hctx1 : ctx_ok l1 F1 E1 c0 c') by (eapply ctx_after_blk; eassumption).
   destruct (SyltSem.eval n e1 value st1) as [[v_|o|cc] st2] eqn:He2.
   2,3: (inversion Hev; subst;
-        destruct (IHe g k'' value ctx c0 cv rv c' e1 st1 _ st' sc1 l1 E1 stL1 F1 He2 Hm0 Hfe Huv Hctx1 Hrel1 Hint) as (b2 & l2 & Hs2 & _ & _ & Hp2);
+        destruct (IHe fl1 W1 g k'' value ctx c0 cv rv c' e1 st1 _ st' sc1 l1 E1 stL1 F1 He2 Hm0 Hfe Huv Hctx1 Hrel1 Hint) as (b2 & l2 & Hs2 & _ & _ & Hp2);
         eexists _, _; (split; [eapply cshape_app; [exact Hs1|]; eapply cshape_app; [exact Hs2 | apply Hasg]|]);
         cbn [eval_post bv_post] in *;
-        eapply (exit_pre_gen pv sv bound u fl W ctx sc sc1 e e1 st st1 F F1 c c0 c0 c' lo hi);
-          [exact Hok1 | exact Hrel | exact Hse1 | exact Hinc1 | eapply exit_app; [exact Hp2 | apply N.le_refl] | lia | lia | lia | lia]).
+        eapply (exit_pre_w pv sv bound u fl W fl1 W1 ctx sc sc1 e e1 st c c0 c0 c' lo hi E stL b1 E1 stL1);
+          [exact Hx1 | exact Hf1 | exact Hk1 | exact Hrel | exact Hw1 | exact Hfn | exact Hse1 | exact Hinc1
+           | eapply exit_app; [exact Hp2 | apply N.le_refl] | lia | lia | lia | lia]).
   inversion Hev; subst r st'. clear Hev.
-  destruct (IHe g k'' value ctx c0 cv rv c' e1 st1 _ st2 sc1 l1 E1 stL1 F1 He2 Hm0 Hfe Huv Hctx1 Hrel1 I)
+  destruct (IHe fl1 W1 g k'' value ctx c0 cv rv c' e1 st1 _ st2 sc1 l1 E1 stL1 F1 He2 Hm0 Hfe Huv Hctx1 Hrel1 I)
     as (b2 & l2 & Hs2 & _ & _ & E2 & stL2 & F2 & Hok2 & Hd2). specialize (Hd2 Hcrv).
   pose proof Hok2 as (Hx2 & Hf2 & Hrel2 & _).
   assert (Hp2 : sget (fmt_var out) E2 = Some p).
   { apply (wr_incl _ _ _ _ _ _ _ Hf2); [exact Hbout|]. apply (wr_incl _ _ _ _ _ _ _ Hf1); assumption. }
   assert (Hl2out : alut_get l2 out = None).
   { destruct Hs1 as (_ & _ & Hfr1 & _). destruct Hs2 as (_ & _ & Hfr2 & _). rewrite Hfr2 by lia. rewrite Hfr1 by lia. exact Hlout. }
-  destruct (step_assign_temp pv sv bound u fl W sc1 e1 st2 F2 lo hi E2 stL2 l2 out rv p v_ Hrel2 Hblo Hout Hcout Hp2 Hnp Hl2out Hd2)
+  assert (Hnp1 : forall lv, ~ w_IL W1 p lv).
+  { intros lv Hq. destruct (Hwn1 p lv Hq) as [Hq'|Hq']; [exact (Hnp lv Hq')|].
+    pose proof (wf_alloc _ _ (r_wf _ _ _ _ _ _ _ _ _ _ _ Hrel) _ _ Hp). lia. }
+  destruct (step_assign_temp pv sv bound u fl1 W1 sc1 e1 st2 F2 lo hi E2 stL2 l2 out rv p v_ Hrel2 Hblo Hout Hcout Hp2 Hnp1 Hl2out Hd2)
     as (stL3 & lv & Hok3 & Hlv & Hvr).
-  assert (Hall : okstepS sc sc1 e1 st2 F lo hi E stL (b1 ++ b2 ++ fst (agen_one u l2 (IAssign out rv))) E2 stL3 F2).
-  { eapply (okstepS_trans_gen sc sc1 sc1 e1 st1 e1 st2 F F1 F2 c c0 lo hi lo hi); [exact Hok1 | | exact Hinc1 | lia | lia | lia | lia].
-    eapply (okstepS_trans_gen sc1 sc1 sc1 e1 st2 e1 st2 F1 F2 F2 c0 c' lo hi lo hi); [exact Hok2 | exact Hok3 | apply incl_refl | lia | lia | lia | lia]. }
+  assert (Hall : okstepS pv sv bound u fl1 W1 sc1 sc1 e1 st2 F1 lo hi E1 stL1 (b2 ++ fst (agen_one u l2 (IAssign out rv))) E2 stL3 F2).
+  { eapply (okstepS_trans_gen pv sv bound u fl1 W1 sc1 sc1 sc1 e1 st2 e1 st2 F1 F2 F2 c0 c' lo hi lo hi); [exact Hok2 | exact Hok3 | apply incl_refl | lia | lia | lia | lia]. }
+  destruct Hall as (Hxa & Hfa & Hrela & _ & Hka).
+  assert (Hfall : wframe bound lo hi E stL E2 stL3)
+    by (eapply wframe_trans; [eapply wframe_widen; [exact Hf1 | lia | lia] | exact Hfa]).
   eexists _, _. split; [eapply cshape_app; [exact Hs1|]; eapply cshape_app; [exact Hs2 | apply Hasg]|].
-  cbn [bv_post]. exists E2, stL3. split; [apply Hall|]. split; [eapply rel_back; eassumption|].
-  split; [eapply xkeep_of_wframe; apply Hall | rewrite Hlv; exact Hvr].
+  cbn [bv_post]. exists E2, stL3. split; [eapply ExecS_app; eassumption|]. split.
+  { eapply (rel_leave pv sv bound u fl W fl1 W1 sc sc1 e e1 st st2 E E2 stL stL3);
+      [exact Hrel | exact Hrela | exact Hw1 | exact Hfn | exact Hinc1 | exact Hse1 | | apply (wr_ncell _ _ _ _ _ _ _ Hfall)].
+    intros w Hw. rewrite (Hka w (Hinc1 w Hw)). apply Hk1. exact Hw. }
+  split; [eapply xkeep_of_wframe; exact Hfall | rewrite Hlv; exact Hvr].
 Qed.
 
-(* ------------------------------------------------------------------ the body of a function *)
+Lemma P_bv_zero : P_bv O.
+Proof.
+  intros g k body ctx c code c' e st r st' sc sc' l E stL F out p lo hi Hev.
+  cbn in Hev. inversion Hev; subst. intros. contradiction.
+Qed.
+
+End Bv.
 
 Lemma mapM_snoc {A B} (f : A -> M B) a x c ca c1 cx c' :
   mapM f a c = Ok (ca, c1) -> f x c1 = Ok (cx, c') -> mapM f (a ++ [x]) c = Ok (ca ++ [cx], c').
@@ -953,12 +947,3 @@ Proof.
   - apply mapM_cons_ok in Ha as (y & c2 & ys & Hy & Hys & ->).
     cbn [app mapM]. unfold IR.bind, IR.ret. rewrite Hy. rewrite (IH _ _ Hys Hx). reflexivity.
 Qed.
-
-Lemma P_bv_zero : P_bv O.
-Proof.
-  intros g k body ctx c code c' e st r st' sc sc' l E stL F out p lo hi Hev.
-  cbn in Hev. inversion Hev; subst. intros. contradiction.
-Qed.
-
-
-End Sim.
